@@ -19,7 +19,7 @@ OPS = """
 query GetUser($f: Filter, $c: Color) { user(f: $f, c: $c) @mixin(from: ".mixins", import: "MixA") { id name color } }
 query Things { things { __typename ... on User { name } ... on Bot { model } } }
 """
-LOCS = ["a.graphql", "sub/a.graphql", "more.graphql/b.graphqls", "sub/c.gql", "zz/deep/d.graphql"]  # the third one lives in a directory named like a GraphQL file;  # two files of one name in different directories come first
+LOCS = ["a.graphql", "sub/a.graphql", "more.graphql/b.defs.graphqls", "sub/c.gql", "zz/deep/d.graphql"]  # the third one has a dotted stem and lives in a directory named like a GraphQL file;  # two files of one name in different directories come first
 NLOC = int(os.environ.get("VERIF_C19_LOCS", "3"))
 NDEF = len(DEFS)
 
